@@ -397,7 +397,7 @@ func run(id, tier, only string, workers int, trace bool, replayFile, solver stri
 	}
 	cfg := &interp.Config{Prog: ld.prog, Tier: tierN, SolverKind: solver, TimeoutMs: timeoutMs, MaxInstrs: 3_000_000, MaxDepth: 4000,
 		StubPkgs: map[string]bool{"mosn.io/mosn/pkg/log": true, "mosn.io/pkg/log": true, "mosn.io/api/extensions/transport/http/fasthttp": false},
-		Params: params, Trace: trace, EagerInit: []string{"mosn.io/mosn/pkg/types", "mosn.io/mosn/pkg/variable"}}
+		Params: params, Trace: trace, EagerInit: append([]string{"mosn.io/mosn/pkg/types", "mosn.io/mosn/pkg/variable", "mosn.io/mosn/pkg/protocol"}, extraInit(useFiles)...)}
 	if trace {
 		workers = 1
 	}
@@ -579,6 +579,10 @@ func run(id, tier, only string, workers int, trace bool, replayFile, solver stri
 						siteRepro[site] = true
 					} else {
 						siteMiss[site] = append(siteMiss[site], fmt.Sprintf("%s: %q -> native %s %v %s", v.Harness, v.Msg, o.Result, o.Failed, o.Detail))
+						if os.Getenv("VCHECK_KEEP_MISMATCH") != "" {
+							b, _ := json.MarshalIndent(map[string]interface{}{"harness": v.Harness, "assertion": v.Msg, "model": v.Model, "choices": v.Choices, "notes": v.Notes, "tier": tierN, "params": params, "package": violPkg[v]}, "", " ")
+							os.WriteFile(fmt.Sprintf("/tmp/mismatch-%s-%d.json", v.Harness, len(siteMiss[site])), b, 0644)
+						}
 					}
 				} else {
 					// sample of a passing path must pass natively too
@@ -781,4 +785,17 @@ func doReplay(id, file string, files []*harnessFile, scratch string) int {
 		}
 	}
 	return 0
+}
+
+// extraInit collects "//verif:init <pkg> ..." directives: packages whose
+// initialisers (registries) must have run before the harness starts.
+func extraInit(files []*harnessFile) []string {
+	var out []string
+	re := regexp.MustCompile(`(?m)^//verif:init\s+(.+)$`)
+	for _, f := range files {
+		for _, m := range re.FindAllStringSubmatch(f.src, -1) {
+			out = append(out, strings.Fields(m[1])...)
+		}
+	}
+	return out
 }
